@@ -152,11 +152,11 @@ PROFILES["conf_full"] = conf_full
 ALLCMDS = ["incr", "decr", "set_np", "restart", "reload", "kill", "signal", "stop", "start", "status", "list",
            "numprocesses"]
 PROFILES.update({
-    "count": {"singleton": True, "cmds": ["incr", "decr", "set_np", "set_multi", "set_multi", "restart", "reload", "kill"], "steps": 30},
+    "count": {"singleton": True, "max_age": 0.3, "mage_vars": [0, 1, 2], "cmds": ["incr", "decr", "set_np", "set_multi", "set_multi", "restart", "reload", "kill"], "steps": 30},
     "stop": {"cmds": ["stop", "stop", "rm", "kill", "restart", "start", "incr", "decr", "set_np", "set_opt", "set_opt", "status"], "stubborn": 0.5,
              "kcall_deaths": 0.6, "hooks": ["after_spawn", "before_stop", "after_stop"], "norespawn": True,
              "stop_children": True, "fork": 0.35},
-    "term": {"max_age": 0.3, "killover": 0.6, "Gs": [0.0, 0.2, 0.3, 0.5, 0.8], "stop_children": True, "stop_signal": True, "fork": 0.15, "stubborn": 0.5,
+    "term": {"max_age": 0.3, "killover": 0.6, "Gs": [0.0, 0.2, 0.3, 0.5, 0.8, 0.05, 0.25, 0.45, 0.95], "stop_children": True, "stop_signal": True, "fork": 0.15, "stubborn": 0.5,
              "cmds": ["stop", "kill", "decr", "restart", "reload", "signal"], "instant": 0.2},
     "acct": {"watchers": 3, "badnb": 0.05, "hooks": ["before_spawn", "after_spawn", "before_start", "after_start", "before_reap", "after_reap"], "faults": 0.3,
              "kcall_deaths": 0.6, "die_untracked": 0.3,
